@@ -1409,6 +1409,13 @@ class OptionStore:
                 # to keep the old options. If they are not valid keep the new
                 # defaults but warn.
                 self.options[key] = value
+                # The new object takes the place of the old one in the
+                # yielding relationship, in both directions.
+                value.parent = oldval.parent
+                value.yielding = oldval.yielding
+                for other in self.options.values():
+                    if other.parent is oldval:
+                        other.parent = value
                 try:
                     value.set_value(oldval.value)
                 except MesonException:
